@@ -182,7 +182,9 @@ def add_var (c, rng, spec):
                 if spec.get ('media') is not None and p [2] == 0:
                     continue
                 d = rf.normal (size = 3)
-                g [e] = [float (x) for x in p + d / np.linalg.norm (d) * 2e-4 * L * rf.random ()]
+                # (up to 0.2 of the tolerance, or - every third structure - up to 0.45: two ends then up to 0.9 apart,
+                # the difference spread over all three coordinates)
+                g [e] = [float (x) for x in p + d / np.linalg.norm (d) * (4.5e-4 if c ['i'] % 3 == 0 else 2e-4) * L * rf.random ()]
         spec ['fuzzy'] = True
     spec ['var'] = dict ( masks = [[int (x) for x in rng.integers (0, 2, n)] for k in range (2)]
                         , perm = [int (x) for x in rng.permutation (n)]
